@@ -62,7 +62,8 @@ def mrp(name: str, byte: int, rq_byte: int, length: int) -> Dict[str, Any]:
 
 def spec_flat() -> Dict[str, Any]:
     """One base variant, three services, multi-byte and sub-byte constant prefixes, NRC-CONST, PHYS-CONST, RESERVED,
-    a parameter without BYTE-POSITION, a shared negative response, an unreferenced response."""
+    a parameter without BYTE-POSITION, a shared negative response, an unreferenced response, services with two positive /
+    two negative responses."""
     dops = [{"name": "u8", "dct": U(8)}, {"name": "u8b", "dct": U(8)}, {"name": "u16", "dct": U(16)},
             {"name": "s8", "dct": U(8, "A_INT32")}, {"name": "u4", "dct": U(4)}]
     msgs = [
@@ -77,9 +78,12 @@ def spec_flat() -> Dict[str, Any]:
         {"kind": "REQUEST", "name": "RQ_reset", "params": [cc("sid", 0x11, 0), cc("sub", 0x1, 1, bits=4, bit=4), val("mode", "u4", 1, bit=0),
                                                            {"t": "RESERVED", "name": "rsv", "byte": 2, "bits": 8}, val("tail", "u8")]},
         {"kind": "POS-RESPONSE", "name": "PR_unused", "params": [cc("sid", 0x51, 0), val("x", "u8", 1)]},
+        {"kind": "POS-RESPONSE", "name": "PR_read_long", "params": [cc("sid", 0x62, 0, semantic="SERVICE-ID"), mrp("did", 1, 1, 2),
+                                                                    val("data", "u16", 3, semantic="DATA"), val("more", "u8b", 5)]},
+        {"kind": "NEG-RESPONSE", "name": "NR_busy", "params": [cc("sid", 0x7F, 0), mrp("rq_sid", 1, 0, 1), cc("nrc", 0x21, 2)]},
     ]
-    svcs = [{"name": "read", "request": "RQ_read", "pos": ["PR_read"], "neg": ["NR_gen"], "semantic": "DATA-READ"},
-            {"name": "write", "request": "RQ_write", "pos": ["PR_write"], "neg": ["NR_gen"], "semantic": "DATA-WRITE"},
+    svcs = [{"name": "read", "request": "RQ_read", "pos": ["PR_read", "PR_read_long"], "neg": ["NR_gen"], "semantic": "DATA-READ"},
+            {"name": "write", "request": "RQ_write", "pos": ["PR_write"], "neg": ["NR_gen", "NR_busy"], "semantic": "DATA-WRITE"},
             {"name": "reset", "request": "RQ_reset"}]
     layer = {"type": "BASE-VARIANT", "name": "BVF", "dops": dops, "msgs": msgs, "svcs": svcs}
     return {"containers": [{"name": "c18flat", "layers": [layer]}]}
